@@ -483,13 +483,13 @@ Section RTS.
     unfold ret at 1. cbn [fst snd]. step_ws E HF. unfold ret. norm. reflexivity.
   Qed.
 
-  Lemma S_node v t l : WfVar X v -> Sstmt (SNode v t l).
+  Lemma S_node v t l : WfVar X v -> t = display_variable (dpenv_of (x_print X)) v -> Sstmt (SNode v t l).
   Proof.
-    intros Hv L n s g r HL [Hf [Hc [Heq [Hel Hes]]]] E Hn HF. pose proof Hf as [Hg [Hr [Hd Hw]]].
+    intros Hv -> L n s g r HL [Hf [Hc [Heq [Hel Hes]]]] E Hn HF. pose proof Hf as [Hg [Hr [Hd Hw]]].
     cbn [stext sloc stmt_pats stmt_ends_word] in *. normE E. rewrite add_pats_nil.
     enter E. step_name E HF. step_ws E HF. kw_dispatch. unfold bind at 1.
     rewrite (parse_variable_ok v (sub L 1) _ g r Hv) by (try wflay; try assumption; try reflexivity; lensolve E HF).
-    rewrite st_after_app, p_loc_st_after. unfold ret at 1. step_ws E HF. unfold ret. norm. reflexivity.
+    rewrite st_after_app, p_loc_st_after. unfold ret at 1. rewrite display_variable_vloc. step_ws E HF. unfold ret. norm. reflexivity.
   Qed.
 
   Lemma S_edge a b l : WfExpr X a -> WfExpr X b -> Sstmt (SEdge a b l).
@@ -1049,7 +1049,7 @@ Section RTS.
     - destruct Hwf. apply S_let; assumption.
     - destruct Hwf. apply S_var; assumption.
     - destruct Hwf. apply S_set; assumption.
-    - apply S_node; exact Hwf.
+    - destruct Hwf as [Hwf Ht]. apply S_node; assumption.
     - destruct Hwf as [H1 [H2 H3]]. apply S_attrnode; assumption.
     - destruct Hwf. apply S_edge; assumption.
     - destruct Hwf as [H1 [H2 [H3 H4]]]. apply S_attredge; assumption.
